@@ -214,18 +214,37 @@ def check(prop, tier, seed):
                 log(msg)
                 continue
             th = note
+            engine_control = None
+            if st.get("selftest"):
+                # positive control of the engine: deliberately broken code must be reported
+                sub, pattern = st["selftest"]
+                e2 = dict(ENV)
+                e2.update(st.get("env") or {})
+                try:
+                    sr = subprocess.run([binary, sub], env=e2, capture_output=True, text=True, timeout=120)
+                    engine_control = (sub, pattern in (sr.stderr + sr.stdout))
+                except Exception:
+                    engine_control = (sub, False)
+                if not engine_control[1]:
+                    stages_ev.append({"stage": name, "status": "unavailable (engine self-test %s did not fire)" % sub})
+                    log("note: stage %s skipped: engine self-test did not fire" % name)
+                    continue
             r = run_mon(binary, prop, tier, seed, name, st.get("timeout", 1500),
                         st.get("args", []), st.get("env"), st.get("wrapper", ()))
+            if engine_control:
+                r["engine_control"] = engine_control
         else:
             from stages import run_special  # sanitizer / miri / fuzz stages
             r, bdt = run_special(kind, st, prop, tier, seed, sys.modules[__name__])
-            if r is None:
-                stages_ev.append({"stage": name, "status": "unavailable"})
+            if r is None or (r.get("engine_control") and not r["engine_control"][1]):
+                stages_ev.append({"stage": name, "status": "unavailable" if r is None else "unavailable (engine self-test did not fire)"})
                 if primary:
                     inconclusive.append("stage %s unavailable" % name)
                 continue
         res = r["result"]
         sev = {"stage": name, "build_s": round(bdt, 1), "wall_s": round(r["wall_s"], 1), "rc": r["rc"]}
+        if r.get("engine_control"):
+            sev["engine_self_test"] = {"name": r["engine_control"][0], "fired": r["engine_control"][1]}
         if res is None:
             sev["status"] = "no-result"
             sev["stderr_tail"] = r["stderr"][-600:]
